@@ -297,10 +297,11 @@ class Protocol:
         if message.TYPE == Notification.TYPE:
             raise cast(Notification, message)
 
-        if isinstance(message, Update) and Attribute.CODE.INTERNAL_DISCARD in message.data.attributes:
-            return _NOP
-        else:
-            return message
+        # RFC 7606 "attribute discard" (and RFC 7311 3.4 for an AIGP received on a session not enabled for it) drops
+        # the attribute, not the UPDATE: the attribute is already left out of the set, the routes are processed
+        # with the rest.  The whole message used to be turned into a NOP here: its routes never reached the
+        # Adj-RIB-In (although the API had been told about them) and it did not count for the hold timer.
+        return message
 
     def validate_open(self) -> None:
         error: tuple[int, int, str] | None = self.negotiated.validate(self.neighbor)
